@@ -50,6 +50,18 @@ def register(R):
             h = c.new.obj(ca) if isinstance(ca, Ref) else None
             cls = env['submission_task_cls']
             out['submission_task_class_matches_the_method'] = (B(isinstance(cls, ClassRef) and cls.cinfo.name == task_cls), ['C18'])
+            if with_limiter:
+                # C13: the manager's shared bandwidth limiter (when max_bandwidth is set) is handed to the transfer
+                lim = c.oldf('_bandwidth_limiter')
+                xk = env.get('extra_main_kwargs')
+                items = c.new.obj(xk).items if isinstance(xk, Ref) and c.new.obj(xk).kind == 'dict' else None
+                base = {'io_executor': c.oldf('_io_executor')} if task_cls == 'DownloadSubmissionTask' else {}    # downloads also get the IO executor
+                base_ok = items is not None and all(k in items and items[k] is v for k, v in base.items())
+                has = base_ok and set(items) == set(base) | {'bandwidth_limiter'} and (
+                    items['bandwidth_limiter'] is lim or (isinstance(lim, Opt) and items['bandwidth_limiter'] is lim.val))
+                none = base_ok and set(items) == set(base)
+                out['shared_bandwidth_limiter_handed_to_the_transfer_iff_configured'] = (
+                    z3.If(lim.is_none, B(bool(none)), B(bool(has))) if isinstance(lim, Opt) else B(bool(has)), ['C13', 'C18'])
             if h is not None:
                 f = h.fields
                 us = c.a_subscribers
@@ -90,7 +102,7 @@ def register(R):
         return out
 
     R.contract(
-        f'{TM}.upload', props=['C15', 'C18', 'C08', 'C01'],
+        f'{TM}.upload', props=['C15', 'C18', 'C08', 'C01', 'C13'],
         params=dict(fileobj=ExtT('fileobj_or_name'), bucket=ExtT('str'), key=ExtT('str'), extra_args=OptT(EXTRA), subscribers=SUBS),
         checks=upload_checks, raises={'Exception': lambda c: {
             'callers_argument_map_is_left_untouched': (z3.Implies(z3.Not(c.a_extra_args.is_none), same_map(c.old.st, c.a_extra_args.val, c.new.st, c.a_extra_args.val))
@@ -119,7 +131,7 @@ def register(R):
         return out
 
     R.contract(
-        f'{TM}.download', props=['C15', 'C18', 'C08', 'C02'],
+        f'{TM}.download', props=['C15', 'C18', 'C08', 'C02', 'C13'],
         params=dict(bucket=ExtT('str'), key=ExtT('str'), fileobj=ExtT('fileobj_or_name'), extra_args=OptT(EXTRA), subscribers=SUBS),
         checks=download_checks, raises={'Exception': lambda c: {}}, top_level=True,
     )
